@@ -1,16 +1,22 @@
 #!/bin/sh
-# every seeded mutant x every check (quick): prints one line per pair; /repo is restored after each
+# every seeded mutant x every check (quick); the change is applied once per mutant; /repo is restored after
+# usage: tools/matrix.sh [out] [name-prefix-of-the-first-mutant-to-run]
 cd /verif
 out=${1:-/verif/work/matrix.txt}
-: > $out
+start=${2:-}
+[ -z "$start" ] && : > $out
+go=0; [ -z "$start" ] && go=1
 for d in seeded/*/; do
   name=$(basename $d)
+  case "$name" in "$start"*) go=1;; esac
+  [ $go = 1 ] || continue
+  [ -f $d/patch.diff ] || continue
+  git -C /repo apply /verif/$d/patch.diff || { echo "$name ALL APPLY_FAILED" >> $out; continue; }
   for p in C01 C02 C03 C04 C05 C06 C07 C08 C09 C10 C11 C12 C13 C14 C15 C16 C17 C18; do
-    git -C /repo apply /verif/$d/patch.diff || { echo "$name $p APPLY_FAILED" >> $out; continue; }
     ./check $p quick > work/matrix_run.log 2>&1; rc=$?
-    git -C /repo checkout -- .
     sum=$(grep -E "quick:" work/matrix_run.log | sed 's/.*executed, //')
     echo "$name $p rc=$rc $sum" >> $out
   done
+  git -C /repo checkout -- .
 done
 echo DONE >> $out
